@@ -487,9 +487,50 @@ def lexer_parsers(prog: Program) -> List[Fn]:
     return out
 
 
+def _fn_of_value(prog: Program, fn: Fn, owner_cls, v) -> Optional[Fn]:
+    """The function a table entry denotes: a bare method / function name (class body or module), `self.m`, `Class.m`."""
+    if isinstance(v, ast.Name):
+        if owner_cls is not None and v.id in owner_cls.methods:
+            return owner_cls.methods[v.id]
+        if fn.cls is not None and v.id in fn.cls.methods and owner_cls is None:
+            return None
+        if v.id in fn.mod.functions:
+            return fn.mod.functions[v.id]
+        return None
+    if isinstance(v, ast.Attribute) and isinstance(v.value, ast.Name):
+        if v.value.id in ("self", "cls") and fn.cls is not None:
+            return prog.method(fn.cls.name, v.attr)
+        if v.value.id in prog.classes:
+            return prog.method(v.value.id, v.attr)
+    return None
+
+
+def _table_display(prog: Program, fn: Fn, tab):
+    """(display node, owner class) of the table expression *tab*: a class attribute (self.T / cls.T / Class.T / bare T in the
+    class), a module-level name, or a local bound once to a display in this function."""
+    if isinstance(tab, ast.Attribute) and isinstance(tab.value, ast.Name) and tab.value.id in ("self", "cls") and fn.cls is not None:
+        return fn.cls.attrs.get(tab.attr), fn.cls
+    if isinstance(tab, ast.Attribute) and isinstance(tab.value, ast.Name) and tab.value.id in prog.classes:
+        oc = prog.classes[tab.value.id]
+        return oc.attrs.get(tab.attr), oc
+    if isinstance(tab, ast.Name):
+        local = [n.value for n in walk_fn(fn.node) if isinstance(n, ast.Assign) and len(n.targets) == 1
+                 and isinstance(n.targets[0], ast.Name) and n.targets[0].id == tab.id]
+        if len(local) == 1:
+            return local[0], None
+        if local:
+            return None, None
+        if fn.cls is not None and tab.id in fn.cls.attrs:
+            return fn.cls.attrs[tab.id], fn.cls
+        vals = fn.mod.assigns.get(tab.id)
+        return (vals[0] if vals and len(vals) == 1 and isinstance(vals[0], ast.expr) else None), None
+    if isinstance(tab, (ast.Dict, ast.Tuple, ast.List)):
+        return tab, None
+    return None, None
+
+
 def _table_expr_targets(prog: Program, fn: Fn, e) -> Optional[List[Fn]]:
-    """e = <recv>.TABLE.get(k[, d]) | <recv>.TABLE[k] | TABLE.get(k) | TABLE[k] with TABLE a dict display (class attribute of
-    fn's class or module-level name) whose values are names of methods of the class / functions of the module."""
+    """e = <table>.get(k[, d]) | <table>[k] with <table> a dict display whose values denote functions."""
     tab = None
     if isinstance(e, ast.Call) and isinstance(e.func, ast.Attribute) and e.func.attr == "get" and e.args:
         tab = e.func.value
@@ -497,38 +538,53 @@ def _table_expr_targets(prog: Program, fn: Fn, e) -> Optional[List[Fn]]:
         tab = e.value
     if tab is None:
         return None
-    disp = None
-    owner_cls = None
-    if isinstance(tab, ast.Attribute) and isinstance(tab.value, ast.Name) and tab.value.id in ("self", "cls") and fn.cls is not None:
-        disp = fn.cls.attrs.get(tab.attr)
-        owner_cls = fn.cls
-    elif isinstance(tab, ast.Attribute) and isinstance(tab.value, ast.Name) and tab.value.id in prog.classes:
-        owner_cls = prog.classes[tab.value.id]
-        disp = owner_cls.attrs.get(tab.attr)
-    elif isinstance(tab, ast.Name):
-        if fn.cls is not None and tab.id in fn.cls.attrs:
-            owner_cls = fn.cls
-            disp = fn.cls.attrs[tab.id]
-        else:
-            vals = fn.mod.assigns.get(tab.id)
-            disp = vals[0] if vals and len(vals) == 1 and isinstance(vals[0], ast.expr) else None
+    disp, owner_cls = _table_display(prog, fn, tab)
     if not isinstance(disp, ast.Dict) or not disp.values:
         return None
     out: List[Fn] = []
     for v in disp.values:
-        t = None
-        if isinstance(v, ast.Name):
-            if owner_cls is not None and v.id in owner_cls.methods:
-                t = owner_cls.methods[v.id]
-            elif v.id in fn.mod.functions:
-                t = fn.mod.functions[v.id]
-        elif isinstance(v, ast.Attribute) and isinstance(v.value, ast.Name) and v.value.id in prog.classes:
-            t = prog.method(v.value.id, v.attr)
+        t = _fn_of_value(prog, fn, owner_cls, v)
         if t is None:
             return None
         if t not in out:
             out.append(t)
     return out
+
+
+def _row_table_targets(prog: Program, fn: Fn, name: str) -> Optional[List[Fn]]:
+    """`for a, b, handler in <table of rows>: ... handler(...)`: the functions in that column of the table."""
+    for lp in walk_fn(fn.node):
+        if not isinstance(lp, (ast.For, ast.comprehension)):
+            continue
+        tg = lp.target
+        col = None
+        if isinstance(tg, ast.Name) and tg.id == name:
+            col = -1
+        elif isinstance(tg, (ast.Tuple, ast.List)):
+            for i, x in enumerate(tg.elts):
+                if isinstance(x, ast.Name) and x.id == name:
+                    col = i
+        if col is None:
+            continue
+        disp, owner_cls = _table_display(prog, fn, lp.iter)
+        if isinstance(disp, ast.Dict):
+            rows = disp.values if col == -1 else None
+        elif isinstance(disp, (ast.Tuple, ast.List)):
+            rows = disp.elts
+        else:
+            rows = None
+        if not rows:
+            return None
+        out: List[Fn] = []
+        for r in rows:
+            v = r if col == -1 else (r.elts[col] if isinstance(r, (ast.Tuple, ast.List)) and col < len(r.elts) else None)
+            t = _fn_of_value(prog, fn, owner_cls, v) if v is not None else None
+            if t is None:
+                return None
+            if t not in out:
+                out.append(t)
+        return out
+    return None
 
 
 def dispatch_table_targets(prog: Program, fn: Fn, f) -> Optional[List[Fn]]:
@@ -547,6 +603,8 @@ def dispatch_table_targets(prog: Program, fn: Fn, f) -> Optional[List[Fn]]:
                 if ts is None:
                     return None
                 found = (found or []) + [t for t in ts if t not in (found or [])]
+        if found is None:
+            return _row_table_targets(prog, fn, f.id)
         return found
     return None
 
